@@ -603,6 +603,43 @@ class FirstMatch(_Bodies):
         return out
 
 
+class OrReturn(_Bodies):
+    """`t = A; if t: return t else: return B` is `return A or B` (with `not t`: `A and B`) when t is used for nothing else; runs after
+    guard clauses have been nested"""
+
+    def __init__(self):
+        self.fn = []
+
+    def visit_FunctionDef(self, node):
+        self.fn.append(node)
+        try:
+            return self._do(node)
+        finally:
+            self.fn.pop()
+
+    visit_AsyncFunctionDef = visit_FunctionDef
+
+    def process(self, body):
+        out = []
+        for st in body:
+            # t = A; if t: return t else: return B   ->   return A or B          (and with `not t`: A and B); t used nowhere else
+            if self.fn and isinstance(st, ast.If) and out and len(st.body) == 1 and len(st.orelse) == 1 and isinstance(st.body[0], ast.Return) \
+                    and isinstance(st.orelse[0], ast.Return) and st.orelse[0].value is not None and isinstance(st.body[0].value, ast.Name):
+                prev = out[-1]
+                neg = isinstance(st.test, ast.UnaryOp) and isinstance(st.test.op, ast.Not)
+                tn_ = st.test.operand if neg else st.test
+                if isinstance(tn_, ast.Name) and tn_.id == st.body[0].value.id and isinstance(prev, ast.Assign) and len(prev.targets) == 1 \
+                        and isinstance(prev.targets[0], ast.Name) and prev.targets[0].id == tn_.id:
+                    inside = {id(y) for y in ast.walk(st)} | {id(y) for y in ast.walk(prev)}
+                    if not any(isinstance(y, ast.Name) and y.id == tn_.id and id(y) not in inside for y in ast.walk(self.fn[-1])) \
+                            and not any(isinstance(y, ast.Name) and y.id == tn_.id for y in ast.walk(st.orelse[0])):
+                        out.pop()
+                        out.append(_loc(ast.Return(value=ast.BoolOp(op=ast.And() if neg else ast.Or(), values=[prev.value, st.orelse[0].value])), st))
+                        continue
+            out.append(st)
+        return out
+
+
 class Untuple(_Bodies):
     """`a, b = x, y` with independent sides (no right-hand element mentions a target) is two assignments"""
 
@@ -644,7 +681,7 @@ def _fold_pass():
     return Fold()
 
 
-PASSES = (Untuple, FirstMatch, Expand, Nest, Default, Ternary, Orient, Merge, Compare, _fold_pass, Comprehend, Alias, _fold_pass)
+PASSES = (Untuple, FirstMatch, Expand, Nest, OrReturn, Default, Ternary, Orient, Merge, Compare, _fold_pass, Comprehend, Alias, _fold_pass)
 
 
 def normalise(tree, passes=PASSES):
